@@ -216,7 +216,43 @@ fn reference(rep: &Rep, seq: &[Item]) -> Obs {
     observe(&w, base)
 }
 
+fn run_miri(rep: &mut Rep) {
+    // Miri tier: a few chunkings per shard through the real reassembly code (BytesMut resize / split_to / freeze paths)
+    rep.note("miri: per shard 6 PRNG compositions of a short stream and 3 cuts / read sizes of a 3 KiB stream");
+    let mut rng = Rng::new(rep.seed.wrapping_mul(97).wrapping_add(rep.shard));
+    let seq = vec![Item::Pub(1, 0), Item::PingResp, Item::Pub(2, 3), Item::Rel(2), Item::Puback];
+    let (_, bytes, _) = build(rep.seed, &seq);
+    let r = reference(rep, &seq);
+    for k in 0..6 {
+        let mut sizes = Vec::new();
+        let mut left = bytes.len();
+        while left > 0 {
+            let s = 1 + rng.below(4);
+            sizes.push(s);
+            left = left.saturating_sub(s);
+        }
+        let plan = if k % 2 == 0 { Plan::Trickle(sizes) } else { Plan::Caps(sizes) };
+        case(rep, &format!("miri-comp:{}:{k}", rep.shard), &seq, &plan, &r);
+        rep.add("compositions", 1);
+    }
+    let seq2 = vec![Item::PingResp, Item::Pub(0, 600), Item::Pub(1, 1500), Item::PingResp];
+    let (_, b2, _) = build(rep.seed, &seq2);
+    let r2 = reference(rep, &seq2);
+    for k in 0..3 {
+        let plan = match k {
+            0 => Plan::Trickle(vec![1 + rng.below(b2.len() - 1)]),
+            1 => Plan::FixedCap(200 + rng.below(400)),
+            _ => Plan::Caps(vec![510 + rng.below(5), 1, 2]),
+        };
+        case(rep, &format!("miri-long:{}:{k}", rep.shard), &seq2, &plan, &r2);
+        rep.add("single_cuts", 1);
+    }
+}
+
 pub fn run(rep: &mut Rep) {
+    if rep.profile == "miri" {
+        return run_miri(rep);
+    }
     let mut idx = 0u64;
     // ---- exhaustive compositions of short streams
     let short: Vec<Vec<Item>> = vec![
